@@ -13,6 +13,7 @@ import (
 	"bytes"
 	"compress/gzip"
 	"context"
+	"encoding/binary"
 	"encoding/hex"
 	"encoding/json"
 	"errors"
@@ -29,6 +30,7 @@ import (
 	"time"
 
 	"github.com/biogo/hts/bam"
+	"github.com/biogo/hts/bgzf"
 	"github.com/biogo/hts/sam"
 )
 
@@ -52,6 +54,13 @@ type c18Input struct {
 	// reader then returns an error / io.EOF).
 	Fail   string `json:"fail,omitempty"`
 	FailAt int    `json:"fail_at,omitempty"`
+	// Bad: indices of Recs that are written as a malformed record (odd input: reference id out of range, even
+	// input: read name length 0): bam.Reader.Read returns an error for it and the NEXT Read returns the
+	// following record (a record-level error is not sticky).
+	Bad []int `json:"bad,omitempty"`
+	// LenDelta is added to the length of every reference (a reference of the same name and another length
+	// makes sam.MergeHeaders, and so NewMerger, fail).
+	LenDelta int `json:"len_delta,omitempty"`
 }
 
 type c18Case struct {
@@ -66,16 +75,17 @@ type c18Fail struct {
 }
 
 type c18Outcome struct {
-	Skip     string    `json:"skip,omitempty"`
-	Impl     string    `json:"impl"`
-	Model    string    `json:"model"` // arguments of the model line
-	Fails    []c18Fail `json:"fails,omitempty"`
-	NOut     int       `json:"n_out"`
-	Created  bool      `json:"created"`
-	PreOK    bool      `json:"pre_ok"` // every input is sorted in the declared order w.r.t. the merged header
-	NonMono  bool      `json:"non_mono"`
-	AnyFail  bool      `json:"any_fail"`
-	Relation string    `json:"relation"`
+	Skip      string    `json:"skip,omitempty"`
+	Impl      string    `json:"impl"`
+	Model     string    `json:"model"` // arguments of the model line
+	Fails     []c18Fail `json:"fails,omitempty"`
+	NOut      int       `json:"n_out"`
+	Created   bool      `json:"created"`
+	PreOK     bool      `json:"pre_ok"` // every input is sorted in the declared order w.r.t. the merged header
+	NonMono   bool      `json:"non_mono"`
+	AnyFail   bool      `json:"any_fail"`
+	NonSticky bool      `json:"non_sticky"`
+	Relation  string    `json:"relation"`
 }
 
 func (o *c18Outcome) fail(sig, format string, a ...interface{}) {
@@ -141,7 +151,7 @@ func c18Build(in c18Input, idx int) (c18Stream, error) {
 		if in.UR {
 			u, _ = url.Parse("http://example.org/" + n)
 		}
-		r, err := sam.NewReference(n, "", "", c18RefLen(n), nil, u)
+		r, err := sam.NewReference(n, "", "", c18RefLen(n)+in.LenDelta, nil, u)
 		if err != nil {
 			return c18Stream{}, err
 		}
@@ -158,11 +168,21 @@ func c18Build(in c18Input, idx int) (c18Stream, error) {
 	}
 	h.SortOrder = so
 	var buf bytes.Buffer
-	w, err := bam.NewWriterLevel(&buf, h, c18Level, 1)
+	// bam.NewWriterLevel uses a *bgzf.Writer it is given as it is, so malformed records can be written
+	// between the records bam.Writer writes
+	bg, err := bgzf.NewWriterLevel(&buf, c18Level, 1)
+	if err != nil {
+		return c18Stream{}, err
+	}
+	w, err := bam.NewWriterLevel(bg, h, c18Level, 1)
 	if err != nil {
 		return c18Stream{}, err
 	}
 	hdrEnd := buf.Len()
+	bad := map[int]bool{}
+	for _, j := range in.Bad {
+		bad[j] = true
+	}
 	recs := in.Recs
 	if in.Fail == "inject" && in.FailAt >= 0 && in.FailAt < len(recs) {
 		recs = recs[:in.FailAt]
@@ -174,6 +194,12 @@ func c18Build(in c18Input, idx int) (c18Stream, error) {
 		return refs[i]
 	}
 	for j, r := range recs {
+		if bad[j] {
+			if _, err := bg.Write(c18BadRecord(idx)); err != nil {
+				return c18Stream{}, err
+			}
+			continue
+		}
 		rec := &sam.Record{Name: r.Name, Ref: ref(r.Ref), Pos: r.Pos, MateRef: ref(r.Mate), MatePos: r.MatePos, TempLen: idx*1000 + j + 1}
 		if err := w.Write(rec); err != nil {
 			return c18Stream{}, err
@@ -197,6 +223,82 @@ func c18Build(in c18Input, idx int) (c18Stream, error) {
 		}
 	}
 	return s, nil
+}
+
+// c18BadRecord is a BAM record that is well framed (block size, 32 fixed bytes, name) but does not decode:
+// reference id 1000 (odd input: "reference id out of range") or l_read_name 0 (even input: "invalid read name
+// length"); the two texts tell the harness whose error the merger returned.
+func c18BadRecord(j int) []byte {
+	name := "bad"
+	b := make([]byte, 4+32+len(name)+1)
+	le := binary.LittleEndian
+	le.PutUint32(b[0:], uint32(32+len(name)+1))
+	le.PutUint32(b[4:], 0xffffffff) // refID -1
+	le.PutUint32(b[8:], 0xffffffff) // pos -1
+	b[12] = byte(len(name) + 1)
+	le.PutUint16(b[14:], 4680)
+	le.PutUint32(b[24:], 0xffffffff) // next refID
+	le.PutUint32(b[28:], 0xffffffff) // next pos
+	copy(b[36:], name)
+	if j%2 == 1 {
+		le.PutUint32(b[4:], 1000)
+	} else {
+		b[12] = 0
+	}
+	return b
+}
+
+// c18Seg is a run of records a plain reader delivers followed by an error (or io.EOF).
+type c18Seg struct {
+	recs []c18Got
+	err  error
+}
+
+// c18ReadPlain reads a stream with a plain bam.Reader to its end.  After an error it reads on: a
+// record-level error is a fresh error value every time and the reader continues with the next record,
+// a sticky error (bgzf's stored error, io.EOF) is returned again as the same value.
+func c18ReadPlain(s c18Stream, rd int) (segs []c18Seg, openErr error, hdr *sam.Header) {
+	r, err := bam.NewReader(s.open(), rd)
+	if err != nil {
+		return nil, err, nil
+	}
+	defer r.Close()
+	cur := c18Seg{}
+	var prev error
+	for n := 0; n < 100000; n++ {
+		rec, err := r.Read()
+		if err == nil {
+			cur.recs = append(cur.recs, c18Plain(rec))
+			prev = nil
+			continue
+		}
+		if prev != nil && err == prev {
+			return segs, nil, r.Header() // the same error value again: sticky
+		}
+		cur.err = err
+		segs = append(segs, cur)
+		if err == io.EOF {
+			return segs, nil, r.Header()
+		}
+		cur, prev = c18Seg{}, err
+	}
+	return segs, errors.New("plain reader does not end"), nil
+}
+
+// c18ModelInput renders what input i delivers for the model: segments separated by "+".
+func c18ModelInput(i int, segs []c18Seg) string {
+	var ss []string
+	for _, sg := range segs {
+		parts := []string{"e"}
+		if sg.err != io.EOF {
+			parts[0] = fmt.Sprintf("f%d", i)
+		}
+		for _, g := range sg.recs {
+			parts = append(parts, fmt.Sprintf("%s:%d:%d:%d:%d:%d", hex.EncodeToString([]byte(g.name)), g.refID, g.pos, g.mateID, g.matePos, g.uid%1000-1))
+		}
+		ss = append(ss, strings.Join(parts, ";"))
+	}
+	return strings.Join(ss, "+")
 }
 
 // c18Got is one record as a plain reader of the input delivers it.
@@ -244,7 +346,7 @@ func c18Mode(cs c18Case) string {
 	return cs.Less
 }
 
-func c18ErrInput(err error, solo []error) string {
+func c18ErrInput(err error, solo [][]error) string {
 	if err == io.EOF {
 		return "eof"
 	}
@@ -253,12 +355,14 @@ func c18ErrInput(err error, solo []error) string {
 		return fmt.Sprintf("err:%d", f.Input)
 	}
 	hit := -1
-	for i, e := range solo {
-		if e != nil && e != io.EOF && e.Error() == err.Error() {
-			if hit >= 0 {
-				return "err:x"
+	for i, es := range solo {
+		for _, e := range es {
+			if e != nil && e != io.EOF && e.Error() == err.Error() {
+				if hit >= 0 && hit != i {
+					return "err:x"
+				}
+				hit = i
 			}
-			hit = i
 		}
 	}
 	if hit >= 0 {
@@ -283,30 +387,38 @@ func c18Eval(cs c18Case) (out c18Outcome) {
 	if rd < 1 {
 		rd = 1
 	}
-	// what a plain reader delivers for each input: the records and how the stream ends
-	solo := make([][]c18Got, k)
-	soloErr := make([]error, k)
+	// what a plain reader delivers for each input: runs of records separated by errors, and how it ends
+	segs := make([][]c18Seg, k)
+	solo := make([]map[int]c18Got, k) // every record the input delivers at all, by uid
+	first := make([][]c18Got, k)      // the records in front of the input's first error
+	soloErr := make([]error, k)       // the first error (io.EOF for a clean input)
+	var allErrs [][]error
+	hdrs := make([]*sam.Header, k)
 	for i := range streams {
-		r, err := bam.NewReader(streams[i].open(), rd)
+		sg, err, h := c18ReadPlain(streams[i], rd)
 		if err != nil {
 			out.Skip = "open: " + err.Error()
 			return
 		}
-		for n := 0; ; n++ {
-			rec, err := r.Read()
-			if err != nil {
-				soloErr[i] = err
-				break
+		segs[i], hdrs[i] = sg, h
+		solo[i] = map[int]c18Got{}
+		var errs []error
+		for n, g := range sg {
+			for _, rec := range g.recs {
+				solo[i][rec.uid] = rec
 			}
-			solo[i] = append(solo[i], c18Plain(rec))
-			if n > 100000 {
-				out.Skip = "plain reader does not end"
-				return
+			if n == 0 {
+				first[i] = g.recs
+				soloErr[i] = g.err
 			}
+			errs = append(errs, g.err)
 		}
-		r.Close()
+		allErrs = append(allErrs, errs)
 		if soloErr[i] != io.EOF {
 			out.AnyFail = true
+		}
+		if len(sg) > 1 {
+			out.NonSticky = true
 		}
 	}
 
@@ -317,17 +429,25 @@ func c18Eval(cs c18Case) (out c18Outcome) {
 		if in.SO == "unsorted" {
 			sos[i] = "n"
 		}
-		parts := []string{"e"}
-		if soloErr[i] != io.EOF {
-			parts[0] = fmt.Sprintf("f%d", i)
-		}
-		for _, g := range solo[i] {
-			parts = append(parts, fmt.Sprintf("%s:%d:%d:%d:%d", hex.EncodeToString([]byte(g.name)), g.refID, g.pos, g.mateID, g.matePos))
-		}
-		ins = append(ins, strings.Join(parts, ";"))
+		ins = append(ins, c18ModelInput(i, segs[i]))
 	}
 	if k == 0 {
 		sos, ins = []string{"-"}, []string{"-"}
+	}
+	// does sam.MergeHeaders accept the headers?  (its result is given data for the model)
+	hdrErr := false
+	if k >= 2 {
+		same := true
+		for _, in := range cs.Inputs {
+			if in.SO != cs.Inputs[0].SO {
+				same = false
+			}
+		}
+		if same {
+			if _, _, err := sam.MergeHeaders(hdrs); err != nil {
+				hdrErr = true
+			}
+		}
 	}
 
 	readers := make([]*bam.Reader, k)
@@ -355,13 +475,22 @@ func c18Eval(cs c18Case) (out c18Outcome) {
 			out.Impl = "newerr:eof"
 		case strings.Contains(nerr.Error(), "sort order mismatch"):
 			out.Impl = "newerr:mismatch"
+		case hdrErr:
+			out.Impl = "newerr:hdr"
 		default:
 			out.Impl = "newerr:other"
 			out.Skip = "NewMerger: " + nerr.Error()
 			return
 		}
-		out.Model = fmt.Sprintf("%s %s x %s", strings.Join(sos, ""), cs.Less, strings.Join(ins, "/"))
+		lk := "x"
+		if hdrErr {
+			lk = "E"
+		}
+		out.Model = fmt.Sprintf("%s %s %s %s", strings.Join(sos, ""), cs.Less, lk, strings.Join(ins, "/"))
 		return
+	}
+	if hdrErr {
+		out.fail("c18.newmerger.header-error-dropped", "sam.MergeHeaders rejects the headers but NewMerger succeeded")
 	}
 	out.Created = true
 	hrefs := m.Header().Refs()
@@ -451,7 +580,7 @@ func c18Eval(cs c18Case) (out c18Outcome) {
 	case o.panicked:
 		fin = "panic"
 	case final != nil:
-		fin = c18ErrInput(final, soloErr)
+		fin = c18ErrInput(final, allErrs)
 	}
 	// after the final error: two more calls must return an error again and no record
 	again := "-"
@@ -468,7 +597,7 @@ func c18Eval(cs c18Case) (out c18Outcome) {
 					cls = append(cls, "nil")
 					out.fail("c18.read.nil-nil", "Read returned nil, nil")
 				default:
-					cls = append(cls, c18ErrInput(err, soloErr))
+					cls = append(cls, c18ErrInput(err, allErrs))
 				}
 			}
 		})
@@ -491,11 +620,15 @@ func c18Eval(cs c18Case) (out c18Outcome) {
 	for _, r := range got {
 		uid := r.TempLen
 		i, j := uid/1000, uid%1000-1
-		if i < 0 || i >= k || j < 0 || j >= len(solo[i]) {
+		if i < 0 || i >= k {
 			out.fail("c18.foreign-record", "output record with TLEN %d is not a record any input delivers", uid)
 			continue
 		}
-		src := solo[i][j]
+		src, known := solo[i][uid]
+		if !known {
+			out.fail("c18.foreign-record", "output record with TLEN %d is not a record any input delivers", uid)
+			continue
+		}
 		if seen[uid] {
 			out.fail("c18.duplicate", "record %d of input %d returned twice", j, i)
 		}
@@ -539,7 +672,7 @@ func c18Eval(cs c18Case) (out c18Outcome) {
 		if out.AnyFail {
 			for i, e := range soloErr {
 				if e != io.EOF {
-					out.fail("c18.error.dropped", "input %d ends with %q after %d records but the merged stream ends with io.EOF", i, e, len(solo[i]))
+					out.fail("c18.error.dropped", "input %d returns %q after %d records but the merged stream ends with io.EOF", i, e, len(first[i]))
 					break
 				}
 			}
@@ -580,9 +713,9 @@ func c18Eval(cs c18Case) (out c18Outcome) {
 		less = func(a, b c18Got) bool { return a.matePos < b.matePos }
 	}
 	out.PreOK = true
-	for i := range solo {
-		for j := 1; j < len(solo[i]); j++ {
-			if less(solo[i][j], solo[i][j-1]) {
+	for i := range first {
+		for j := 1; j < len(first[i]); j++ {
+			if less(first[i][j], first[i][j-1]) {
 				out.PreOK = false
 			}
 		}
@@ -649,7 +782,7 @@ func c18Risky(cs c18Case) bool {
 		return false
 	}
 	for _, in := range cs.Inputs {
-		if in.Fail != "" {
+		if in.Fail != "" || len(in.Bad) > 0 {
 			return true
 		}
 	}
@@ -767,24 +900,11 @@ func c18ModelOnly(cs c18Case) string {
 		if err != nil {
 			return ""
 		}
-		r, err := bam.NewReader(s.open(), 1)
+		segs, err, _ := c18ReadPlain(s, 1)
 		if err != nil {
 			return ""
 		}
-		parts := []string{"e"}
-		for {
-			rec, err := r.Read()
-			if err != nil {
-				if err != io.EOF {
-					parts[0] = fmt.Sprintf("f%d", i)
-				}
-				break
-			}
-			g := c18Plain(rec)
-			parts = append(parts, fmt.Sprintf("%s:%d:%d:%d:%d", hex.EncodeToString([]byte(g.name)), g.refID, g.pos, g.mateID, g.matePos))
-		}
-		r.Close()
-		ins = append(ins, strings.Join(parts, ";"))
+		ins = append(ins, c18ModelInput(i, segs))
 	}
 	return fmt.Sprintf("%s %s %s %s", strings.Join(sos, ""), cs.Less, c18GuessLinks(cs), strings.Join(ins, "/"))
 }
@@ -912,6 +1032,27 @@ func c18Gen(rnd *Rand, thorough bool) (c18Case, string) {
 	if k > 1 && rnd.coin(1, 40) {
 		cs.Inputs[rnd.intn(k)].SO = []string{"unknown", "unsorted", "queryname", "coordinate"}[rnd.intn(4)]
 	}
+	// malformed records: the reader returns an error for them and then goes on with the next record
+	if k > 0 && rnd.coin(1, 6) {
+		parity := map[int]bool{}
+		for f := 0; f < 1+rnd.intn(2); f++ {
+			i := rnd.intn(k)
+			in := &cs.Inputs[i]
+			if parity[i%2] || len(in.Recs) == 0 {
+				continue
+			}
+			parity[i%2] = true
+			j := rnd.intn(len(in.Recs))
+			in.Bad = []int{j}
+			if rnd.coin(1, 3) && j+1 < len(in.Recs) {
+				in.Bad = append(in.Bad, j+1+rnd.intn(len(in.Recs)-j-1))
+			}
+		}
+	}
+	// a reference of another length under the same name: sam.MergeHeaders fails
+	if k > 1 && rnd.coin(1, 40) {
+		cs.Inputs[1+rnd.intn(k-1)].LenDelta = 1
+	}
 	// failing inputs
 	if k > 0 && rnd.coin(1, 4) {
 		nf := 1
@@ -949,6 +1090,12 @@ func c18Witnesses() []c18Case {
 	failingQ.Fail, failingQ.FailAt = "inject", 1
 	ur := in("queryname", ab, rec("a", 0, 1, 1, 2))
 	ur.UR = true
+	badMid := in("unsorted", ab, rec("a", 0, 1, -1, -1), rec("b", 0, 2, -1, -1), rec("c", 0, 3, -1, -1))
+	badMid.Bad = []int{1}
+	badMidQ := in("queryname", ab, rec("a", 0, 1, -1, -1), rec("b", 0, 2, -1, -1), rec("c", 0, 3, -1, -1))
+	badMidQ.Bad = []int{1}
+	otherLen := in("queryname", ab, rec("b", 0, 1, -1, -1))
+	otherLen.LenDelta = 1
 	return []c18Case{
 		// mate on another reference, two inputs with different reference lists
 		{Less: "nil", RD: 1, Inputs: []c18Input{in("queryname", ab, rec("a", 0, 1, 1, 2)), in("queryname", []string{"b", "c"}, rec("b", 0, 1, 1, 3))}},
@@ -964,6 +1111,12 @@ func c18Witnesses() []c18Case {
 			in("coordinate", za, rec("r", 0, 6, -1, -1), rec("r", 1, 6, -1, -1))}},
 		// identical headers whose references carry UR:
 		{Less: "nil", RD: 1, Inputs: []c18Input{ur, ur}},
+		// a malformed record in the middle of the first of two concatenated inputs (record-level error, not sticky)
+		{Less: "nil", RD: 1, Inputs: []c18Input{badMid, in("unsorted", ab, rec("d", 0, 1, -1, -1))}},
+		// the same, sorted
+		{Less: "nil", RD: 1, Inputs: []c18Input{badMidQ, in("queryname", ab, rec("bb", 0, 1, -1, -1))}},
+		// reference a with two lengths
+		{Less: "nil", RD: 1, Inputs: []c18Input{in("queryname", ab, rec("a", 0, 1, -1, -1)), otherLen}},
 	}
 }
 
@@ -1126,6 +1279,9 @@ func checkC18(c *ctx) {
 		}
 		if o.AnyFail {
 			r.hist("input-fails")
+		}
+		if o.NonSticky {
+			r.hist("input-error-not-sticky")
 		}
 		if o.NonMono {
 			r.hist("links.non-monotone")
